@@ -43,8 +43,65 @@ def captured():
         sys.stdout, sys.stderr = so, se
 
 
+VIA_READER = 0.12
+
+
 def live_tree(ctx, spec, rng=None, style='export'):
+    """The live tree for a spec: built through the Tree API (child lists in
+    random order) or - in about one case of eight - by the repository's own
+    reader from a file that an independent encoder wrote, as in a real run.
+    A reader-built tree is used only if a raw walk of it gives the spec back;
+    head marks and other node attributes of the spec are then copied on."""
+    if rng is not None and ctx is not None and VIA_READER:
+        import random as _random
+        r = _random.Random(rng.random())    # own stream: callers' draws stay
+        if r.random() < VIA_READER:
+            live = _via_reader(ctx, spec, r)
+            if live is not None:
+                ctx.stratum('live tree built by a reader')
+                return live
     return model.build_live_tree(spec, ctx.R.trees, rng, style)
+
+
+def _via_reader(ctx, spec, r):
+    from . import codec
+    R = ctx.R
+    want = model.from_spec(spec['root'])
+    fmt = r.choice(['export', 'export', 'tigerxml'])
+    opts = {'quiet': True}
+    if r.random() < 0.5:
+        opts['gf_split'] = True
+    try:
+        if fmt == 'export':
+            v4 = any(t.lemma not in (None, '--') for t in want.toks())
+            text = codec.export_encode([spec], v4=v4)
+        else:
+            text = codec.tigerxml_encode([spec], r if r.random() < 0.5
+                                         else None)
+        path = write(ctx.path('.via.' + fmt), text)
+        with captured():
+            got = list(getattr(R.treeinput, fmt)(path, 'utf-8', **opts))
+        os.remove(path)
+        if len(got) != 1:
+            return None
+        live = got[0]
+        defects, have = model.snapshot(live)
+        if defects or model.canon(have, 'wplme') != model.canon(want, 'wplme'):
+            return None
+    except Exception:
+        return None
+
+    def copy_on(m_spec, m_live):
+        node = m_live.ref
+        if m_spec.head is not None:
+            node.data['head'] = m_spec.head
+        for k, v in m_spec.attrs.items():
+            node.data[k] = v
+        for a, b in zip(m_spec.kids(), m_live.kids()):
+            copy_on(a, b)
+    copy_on(want, have)
+    live.data['sid'] = spec['sid']
+    return live
 
 
 def write(path, text, encoding='utf-8'):
